@@ -56,10 +56,13 @@ func StripDomain(data []byte, domain string) (res []byte) {
 				res = append(res, byte(num))
 			}
 			data = data[4:]
-		} else {
+		} else if len(data) > 1 {
 			// Add char normally
 			res = append(res, data[1])
 			data = data[2:]
+		} else {
+			// Trailing escape character without anything to escape
+			data = data[1:]
 		}
 	}
 
